@@ -328,6 +328,19 @@ func (g *G) classes() []genClass {
 }
 
 func (g *G) next() *History {
+	if g.prop == "C12" {
+		// metamorphic pairs: canonical history, then its respelling
+		if g.pending != nil {
+			h := g.pending
+			g.pending = nil
+			return h
+		}
+		g.n++
+		base := g.genGrid(fmt.Sprintf("%s-%d", g.prop, g.n))
+		base.Class = "canonical"
+		g.pending = g.respellHistory(base)
+		return base
+	}
 	g.n++
 	id := fmt.Sprintf("%s-%d", g.prop, g.n)
 	cs := g.classes()
